@@ -1997,7 +1997,7 @@ impl Connection {
             space.ecn_counters += x;
 
             if x.is_ce() {
-                space.pending_acks.set_immediate_ack_required();
+                space.pending_acks.set_congestion_experienced();
             }
         }
 
